@@ -21,6 +21,7 @@ InitObs(P) ==
     ts    |-> EmptyFn,      \* task -> [st, seg, ys, catch, thrown, by, ord]
     fut   |-> EmptyFn,      \* future -> [done, v, u]
     item  |-> EmptyFn,      \* item future -> batch
+    iinfo |-> EmptyFn,      \* item future -> [comp |-> computation (outermost call) that created it, own |-> creating task]
     bat   |-> EmptyFn,      \* batch -> [kind, st, items, nbefore, nafter, nbegin, sched]
     ctx   |-> EmptyFn,      \* context -> [owner, st, ty]
     cstk  |-> <<>>,         \* active contexts of the thread in resume order
@@ -59,7 +60,7 @@ BlockedFix(S, B) ==
   IN IF B2 = B THEN B ELSE BlockedFix(S, B2)
 Blocked(S) == BlockedFix(S, {t \in Tasks(S) : \E f \in Awaits(S, t) : ItemUnflushed(S, f)})
 
-AwaitedItem(S, f) == \E t \in Tasks(S) : f \in Awaits(S, t) /\ ~FutDone(S, t)
+AwaitedItem(S, f) == \E t \in Tasks(S) \ S.aband : f \in Awaits(S, t) /\ ~FutDone(S, t)
 OnChain(S, o) == o \in Range(S.run) \/ \E r \in Range(S.run) : r \in Reach(S, o)
 OpenCtx(S) == {c \in DOMAIN S.ctx : S.ctx[c].st \in {"on", "off"}}
 Parents(S, u) == {t \in Tasks(S) : u \in Succ(S, t)}
@@ -207,6 +208,7 @@ Step(S, e) ==
     [] e.e = "NewItem" ->
         IF e.b \notin DOMAIN S.bat THEN [S |-> S, bad |-> {"H.unknown_batch"}] ELSE
         [S |-> [S EXCEPT !.item = Upd(@, e.a, e.b), !.bat[e.b].items = Append(@, e.a),
+                         !.iinfo = Upd(@, e.a, [comp |-> S.ncall, own |-> e.t]),
                          !.fut = Upd(@, e.a, FutRec(FALSE, VNone, 0))],
          bad |-> IfBad(S.bat[e.b].st = "pending", "C11.additem")]
 
@@ -237,10 +239,19 @@ Step(S, e) ==
             blk == Blocked(S)
             maxOk == \A t \in reach : FutDone(S, t) \/ (S.ts[t].seg > 0 /\ S.ts[t].st = "waiting" /\ t \in blk)
             S1 == [S EXCEPT !.bat[e.b].nbefore = @ + 1, !.bat[e.b].sched = TRUE, !.nflush = @ + 1, !.prio = EmptyFn]
+            \* C08.fresh: a fresh scheduler has nothing scheduled, so every batch it flushes holds at least one request
+            \* of the computation that is running now; otherwise the batch was retained from an earlier computation.
+            \* The clause name says how the earlier owner of the stale requests ended.
+            own1 == IF Len(B.items) > 0 THEN S.iinfo[B.items[1]].own ELSE 0
+            staleWhy == IF own1 \in S.aband THEN "abandoned"
+                        ELSE IF FutDone(S, own1) /\ IsX(S.fut[own1].v) /\ (S.fut[own1].v.n = 70000 \/ (S.fut[own1].v.n >= 90000 /\ S.fut[own1].v.n < 91000))
+                             THEN "ctxfail" ELSE "other"
+            stale == Len(B.items) > 0 /\ \A i \in 1..Len(B.items) : S.iinfo[B.items[i]].comp < S.ncall
         IN [S |-> S1,
             bad |-> IfBad(B.nbefore = 0 /\ B.nbegin = 0 /\ B.st = "pending", "C05.once") \cup
                     IfBad(Len(B.items) > 0, "C05.nonempty") \cup
                     IfBad(root # 0 /\ ~FutDone(S, root), "C05.live") \cup
+                    (IF stale THEN {"C08.fresh.flush." \o staleWhy} ELSE {}) \cup
                     (IF yo THEN IfBad(\A b \in pend : prioOk(b), "C05.prio") \cup
                                 IfBad(maxOk, "C04.max")
                      ELSE {}) \cup
